@@ -422,11 +422,15 @@ def install_market_ops():
     def co_pre(m, cancel):
         o = cancel.order
         return dict(mp=m._market_prices[m.time], vol=o.volume, rec=_records(m), t=m.time, inB=rests(m.buy_order_book, o), inS=rests(m.sell_order_book, o),
-                    nB=len(m.buy_order_book.priority_queue), nS=len(m.sell_order_book.priority_queue))
+                    nB=len(m.buy_order_book.priority_queue), nS=len(m.sell_order_book.priority_queue), ser=_series(m))
 
     def co_post(m, c, log, cancel):
         F = "Market._cancel_order"
         o = cancel.order
+        now_ = _series(m)
+        for k_, old_ in c["ser"].items():
+            if now_[k_][:c["t"]] != old_[:c["t"]]:
+                raise ContractViolation(F, "C06 values recorded for past times are unchanged (a cancellation belongs to the step in which it happens)", k_)
         if not o.is_canceled or rests(m.buy_order_book, o) or rests(m.sell_order_book, o):
             raise ContractViolation(F, "C04 the order is marked cancelled and rests in no book afterwards")
         if len(m.buy_order_book.priority_queue) != c["nB"] - (1 if c["inB"] else 0) or len(m.sell_order_book.priority_queue) != c["nS"] - (1 if c["inS"] else 0):
